@@ -323,6 +323,71 @@ fn queries(db: &FixtureDatabase, only_files: Option<Vec<PathBuf>>) -> Value {
            "unused": unused})
 }
 
+
+/// canonical, order-insensitive text of the four index maps (+ reverse index of definitions)
+fn index_key(db: &FixtureDatabase) -> String {
+    let mut parts: Vec<String> = Vec::new();
+    for e in db.definitions.iter() {
+        let mut v: Vec<String> = e.value().iter().map(|d| format!("{}@{}:{}", d.name, p2s(&d.file_path), d.line)).collect();
+        v.sort();
+        parts.push(format!("D[{}]={}", e.key(), v.join(",")));
+    }
+    for e in db.file_definitions.iter() {
+        let mut v: Vec<String> = e.value().iter().cloned().collect();
+        v.sort();
+        parts.push(format!("F[{}]={}", p2s(e.key()), v.join(",")));
+    }
+    for e in db.usages.iter() {
+        let mut v: Vec<String> = e.value().iter().map(|u| format!("{}@{}:{}:{}", u.name, p2s(&u.file_path), u.line, u.start_char)).collect();
+        v.sort();
+        if !v.is_empty() {
+            parts.push(format!("U[{}]={}", p2s(e.key()), v.join(",")));
+        }
+    }
+    for e in db.usage_by_fixture.iter() {
+        let mut v: Vec<String> = e.value().iter().map(|(p, u)| format!("{}@{}:{}:{}", u.name, p2s(p), u.line, u.start_char)).collect();
+        v.sort();
+        parts.push(format!("R[{}]={}", e.key(), v.join(",")));
+    }
+    parts.sort();
+    parts.join(";")
+}
+
+/// did another thread write-lock the same (map, shard) between one thread's two consecutive
+/// write acquisitions of it (the retain -> remove_if window)?
+fn window_hits(events: &[(usize, dashmap::verif::sched::Ev, u64, u32, dashmap::verif::Mode)]) -> usize {
+    use dashmap::verif::sched::Ev;
+    use dashmap::verif::Mode;
+    let mut hits = 0;
+    // last released W per (thread, map, shard) -> index
+    let mut open: std::collections::HashMap<(usize, u64, u32), usize> = std::collections::HashMap::new();
+    let mut foreign: std::collections::HashMap<(usize, u64, u32), bool> = std::collections::HashMap::new();
+    for (t, ev, m, sh, md) in events.iter() {
+        if *md != Mode::Exclusive || !(*m == 0 || *m == 3) {
+            continue;
+        }
+        match ev {
+            Ev::Released => {
+                open.insert((*t, *m, *sh), 1);
+                foreign.insert((*t, *m, *sh), false);
+            }
+            Ev::Acquired => {
+                // a foreign acquisition inside somebody's window
+                for ((ot, om, osh), _) in open.iter() {
+                    if *ot != *t && *om == *m && *osh == *sh {
+                        foreign.insert((*ot, *om, *osh), true);
+                    }
+                }
+                if open.remove(&(*t, *m, *sh)).is_some() && foreign.remove(&(*t, *m, *sh)) == Some(true) {
+                    hits += 1;
+                }
+            }
+            _ => {}
+        }
+    }
+    hits
+}
+
 fn exec(dbs: &Mutex<Dbs>, cmd: &Value) -> Result<Value, String> {
     let op = s(cmd, "op")?;
     match op {
@@ -612,6 +677,71 @@ fn exec(dbs: &Mutex<Dbs>, cmd: &Value) -> Result<Value, String> {
             let results = results.lock().unwrap().clone();
             Ok(json!({"hooks": tr.hooks, "decisions": tr.decisions, "events": evs,
                       "deadlock": tr.deadlock, "results": results}))
+        }
+        "sched_scenario" => {
+            // many seeded schedules of one scenario; each on a fresh database
+            let setup: Vec<Value> = cmd.get("setup").and_then(|v| v.as_array()).cloned().unwrap_or_default();
+            let threads: Vec<Vec<Value>> = cmd.get("threads").and_then(|v| v.as_array()).ok_or("missing threads")?
+                .iter().map(|t| t.as_array().cloned().unwrap_or_default()).collect();
+            let after: Vec<Value> = cmd.get("after").and_then(|v| v.as_array()).cloned().unwrap_or_default();
+            let seed0 = n(cmd, "seed")?;
+            let count = n(cmd, "count")?;
+            let pct = cmd.get("pct").and_then(|v| v.as_u64()).map(|d| d as usize);
+            let est = cmd.get("est").and_then(|v| v.as_u64()).unwrap_or(100) as usize;
+            let sequential: Option<Vec<usize>> = cmd.get("sequential").and_then(|v| v.as_array()).map(|a| a.iter().filter_map(|x| x.as_u64()).map(|x| x as usize).collect());
+            let mut outcomes: std::collections::BTreeMap<String, (u64, u64, Vec<String>)> = std::collections::BTreeMap::new();
+            let mut decisions: std::collections::HashSet<Vec<u8>> = std::collections::HashSet::new();
+            let mut total_hooks = 0usize;
+            let mut runs_with_window = 0u64;
+            let mut panics: Vec<Value> = Vec::new();
+            for i in 0..count {
+                dashmap::verif::begin_group();
+                let db = Arc::new(FixtureDatabase::new());
+                let local = Mutex::new(Dbs { dbs: vec![db.clone()] });
+                for c in &setup {
+                    let r = run_one(&local, c);
+                    if r.get("panic").is_some() { panics.push(r); }
+                }
+                let seed = seed0.wrapping_add(i);
+                if let Some(order) = &sequential {
+                    for t in order {
+                        for c in &threads[*t] {
+                            let r = run_one(&local, c);
+                            if r.get("panic").is_some() { panics.push(r); }
+                        }
+                    }
+                } else {
+                    let mut bodies: Vec<Box<dyn FnOnce() + Send>> = Vec::new();
+                    let pan: Arc<Mutex<Vec<Value>>> = Arc::new(Mutex::new(Vec::new()));
+                    for t in &threads {
+                        let cmds = t.clone();
+                        let l = Mutex::new(Dbs { dbs: vec![db.clone()] });
+                        let pan = Arc::clone(&pan);
+                        bodies.push(Box::new(move || {
+                            for c in &cmds {
+                                let r = run_one(&l, c);
+                                if r.get("panic").is_some() { pan.lock().unwrap().push(r); }
+                            }
+                        }));
+                    }
+                    let tr = dashmap::verif::sched::run(seed, pct, est, None, bodies);
+                    total_hooks += tr.hooks;
+                    if window_hits(&tr.events) > 0 { runs_with_window += 1; }
+                    decisions.insert(tr.decisions.clone());
+                    panics.extend(pan.lock().unwrap().drain(..));
+                }
+                for c in &after {
+                    let r = run_one(&local, c);
+                    if r.get("panic").is_some() { panics.push(r); }
+                }
+                let key = index_key(&db);
+                let inv = invariants(&db);
+                let e = outcomes.entry(key).or_insert((0, seed, inv));
+                e.0 += 1;
+            }
+            let outs: Vec<Value> = outcomes.iter().map(|(k, (c, s_, inv))| json!({"index": k, "count": c, "first_seed": s_, "invariants": inv})).collect();
+            Ok(json!({"outcomes": outs, "distinct_schedules": decisions.len(), "hooks": total_hooks,
+                      "runs_with_window": runs_with_window, "panics": panics}))
         }
         "stress" => {
             let threads = cmd.get("threads").and_then(|v| v.as_array()).ok_or("missing threads")?;
